@@ -98,15 +98,21 @@ def run_with_faults(case, faults):
             orig(self, parameters)
         finally:
             S._POISON[0] = False
-        if (not f or f[0] == "nan") and plan.n_at_create_result is None:  # a non-finite evaluation did not *raise*
+
+    from glotaran.optimization import optimizer as om
+
+    orig_penalty = om.Optimizer.calculate_penalty
+
+    def calculate_penalty(self):
+        r = orig_penalty(self)  # raises when any group of this objective evaluation raises
+        if plan.n_at_create_result is None:  # (a non-finite evaluation did not *raise*)
             # only evaluations made by the optimiser count as "evaluated without error"; the re-evaluations
             # create_result performs at the parameters it has already chosen must not vouch for themselves
-            plan.ok_vectors.append(tuple(float(p.value) for p in parameters.all()))
+            plan.ok_vectors.append(tuple(float(p.value) for p in self._parameters.all()))
+        return r
 
     from vf.checks.c10 import diff_snapshots
     from vf.checks.c10 import snapshot_scheme
-
-    from glotaran.optimization import optimizer as om
 
     orig_create = om.Optimizer.create_result
 
@@ -121,6 +127,7 @@ def run_with_faults(case, faults):
     sys.stdout = capture
     og.OptimizationGroup.calculate = patched
     om.Optimizer.create_result = create_result
+    om.Optimizer.calculate_penalty = calculate_penalty
     try:
         with warnings.catch_warnings(record=True) as w:
             warnings.simplefilter("always")
@@ -134,6 +141,7 @@ def run_with_faults(case, faults):
     finally:
         og.OptimizationGroup.calculate = orig
         om.Optimizer.create_result = orig_create
+        om.Optimizer.calculate_penalty = orig_penalty
         out["stdout_restored"] = sys.stdout is capture
         sys.stdout = real_stdout
         S._POISON[0] = False
@@ -176,14 +184,19 @@ def judge(case, faults, out, n_optimizer_evaluations):
             return vs
         if case["raise_exception"]:
             return vs  # non-finite faults with raise_exception=True may surface as scipy/numpy errors
-        in_cr = bool(n_optimizer_evaluations is not None and min(ks) > n_optimizer_evaluations)
+        # where was the evaluation that raised called from - in *this* run (a first fault may end the optimiser early)
+        if any(exc is r for r in plan.raised) and plan.n_at_create_result is not None:
+            k_exc = int(str(exc.args[0]).rsplit("-", 1)[-1]) if exc.args else 0
+            in_cr = k_exc > plan.n_at_create_result
+        else:
+            in_cr = bool(plan.n_at_create_result is not None and "nan" in kinds)
         if any(exc is r for r in plan.raised):
             # the injected exception itself came out: the finding is identified by where the evaluation was called from
             sig = "injected-exception-escaped-with-raise_exception-false/" + ("in-create_result" if in_cr else "in-least_squares")
         else:
             sig = "exception-escaped-with-raise_exception-false/" + type(exc).__name__
         vs.append(V(sig, exc=repr(exc)[:200], exception_type=type(exc).__name__, fault_kinds=sorted(kinds),
-                    fault_in_create_result=in_cr, **ctx))  # fmt: skip
+                    has_nan="nan" in kinds, fault_in_create_result=in_cr, **ctx))  # fmt: skip
         return vs
     # a Result came back
     if only_raise:
@@ -195,7 +208,8 @@ def judge(case, faults, out, n_optimizer_evaluations):
             vs.append(V("result-returned-although-no-evaluation-succeeded", **ctx))
     got = tuple(float(p.value) for p in res.optimized_parameters.all())
     if not all(np.isfinite(got)):
-        vs.append(V("result-parameters-not-finite", **ctx))
+        if only_raise:  # after a non-finite matrix SciPy itself may step to non-finite parameters
+            vs.append(V("result-parameters-not-finite", **ctx))
     elif plan.ok_vectors and got not in plan.ok_vectors:
         near = min(max(abs(a - b) for a, b in zip(got, v)) for v in plan.ok_vectors)
         vs.append(V("result-parameters-were-never-evaluated-without-error", distance_to_nearest_evaluated=near, **ctx))
